@@ -174,4 +174,31 @@ WSCompact(d, e) ==     \* with renumbering
      /\ \A u, v \in stay : (PosOf(d.ws, u) < PosOf(d.ws, v)) <=> (PosOf(e.ws, u) < PosOf(e.ws, v))
      /\ \A u \in stay : \A v \in Range(e.ws) \ stay : PosOf(e.ws, u) < PosOf(e.ws, v)
 
+-----------------------------------------------------------------------------
+(* The dependency map (Replica::dependency_map, docs/src/tasks.md): a task in the working  *)
+(* set depends on every task named by one of its dep_<uuid> keys whose stored status is    *)
+(* "pending".  Task tokens u1..u4 stand for the fixed uuids the harness uses, so the key   *)
+(* of a dependency on uN is a constant string.                                             *)
+DepKey(u) ==
+  CASE u = "u1" -> "dep_7a5c0000-0000-0000-0000-000000000001"
+    [] u = "u2" -> "dep_7a5c0000-0000-0000-0000-000000000002"
+    [] u = "u3" -> "dep_7a5c0000-0000-0000-0000-000000000003"
+    [] u = "u4" -> "dep_7a5c0000-0000-0000-0000-000000000004"
+    [] OTHER    -> "dep_-"
+IsPendingTask(t) == "status" \in Props /\ t.ex /\ t.m["status"] = "pending"
+DepMapOf(d) ==
+  {<<u, w>> \in Tasks \X Tasks :
+      /\ u \in Range(d.ws) /\ d.tasks[u].ex
+      /\ DepKey(w) \in Props /\ d.tasks[u].m[DepKey(w)] # NoVal
+      /\ IsPendingTask(d.tasks[w])}
+Blocked(d)  == {e[1] : e \in DepMapOf(d)}
+Blocking(d) == {e[2] : e \in DepMapOf(d)}
+(* what an Observe event reports: pairs, and the tasks get_task shows as BLOCKED / BLOCKING *)
+PairSet(a) == {<<a[i][1], a[i][2]>> : i \in DOMAIN a}
+DepMapAsStored(d, E) ==
+  "dm" \in DOMAIN E =>
+     /\ E.dm_ok
+     /\ PairSet(E.dm) = DepMapOf(d)
+     /\ Range(E.blocked) = Blocked(d)
+     /\ Range(E.blocking) = Blocking(d)
 =============================================================================
